@@ -33,6 +33,9 @@ CLAIMED = {
     "C32": ("Coq proof (index-tagged collection is order-independent: for every permutation of arrivals) + differential runs of the real runner with hook-forced completion orders",
             "C32_list / C32_dict hold for every arrival permutation, i.e. every worker count and completion order; the real parallel() is run with 1-16 workers, random sleeps and hook H1 forcing reversed/rotated/shuffled submission and arrival orders. Partial: process pools, pickling and OS scheduling are runtime behaviour outside the model.",
             "Coq kernel; joblib abstracted as exactly-once delivery in arbitrary order; hook H1"),
+    "C21": ("Coq proof (worklist order is topological and complete; evaluation sound for a declarative big-step semantics; denotation unique hence key-order independent) + differential correspondence over three scope levels",
+            "C21_order_topological, C21_cycle_iff, C21_value_and_scoping, C21_denotation_unique, C21_key_order_irrelevant for every object of integer definitions; the real Spec evaluation is run on random DAGs/cycles in Spec.variables, arch.variables and component attributes and compared with the model and a Python oracle.",
+            "Coq kernel; integer arithmetic fragment; Python eval trusted; self-reference resolves to the enclosing scope (documented reading)"),
 }
 
 PENDING_REASON = "check not built yet in this round (planned, see DESIGN.md section 6); not claimed until its proof and correspondence exist"
